@@ -45,6 +45,9 @@ CHECKS = {
          "For every sequence method in every reachable state: every stop position, callbacks after false counted, then two more full passes over the same sequence value must equal the first."),
  "C15": ("model_checking", "E1-HIST", E1_TECH, E1_NOTE,
          "Complete raw structural dump (stale lanes, all inline bytes, size) compared before/after every group of queries, every Delete(absent) and every overwrite, in every reachable state."),
+ "C16": ("model_checking", "E4-SCHED", "stateless model checking: all goroutine schedules with a bounded number of preemptions at statement granularity on an overlay-instrumented build, plus a separate free-running -race pass",
+         "Sequential consistency at statement granularity; sync.Pool modelled as a linearizable list inside the controlled scheduler; <= 2 preemptions (thorough: 3 for two goroutines, 3 goroutines with 2); the -race pass is sampling and reported separately.",
+         "Every schedule within the preemption bound of 2-3 goroutines on private trees with pool traffic on every size class, and of concurrent read-only query mixes on one shared tree, must give every goroutine its sequential observations, leave every tree well-formed and the shared tree byte-identical; a free-running -race pass of the same bodies must be report-free."),
  "C17": ("exploration", "E5-HEAP", "exhaustive enumeration of (reachable state, operation cycle) pairs of small closures; per pair a live-heap measurement after forced collections against a fixed threshold",
          "The set of (state, cycle) pairs is exhaustive for the listed universes; the verdict per pair is a measurement (HeapAlloc after two forced GCs) with thresholds two orders of magnitude from both behaviours; violations are re-measured before being reported.",
          "Every operation cycle (queries, overwrites, absent deletes, delete/insert churn incl. grow/shrink thresholds) of every reachable state is pumped 4*10^4 times and the live heap must not grow; 200 trees per state are churned and emptied and must retain only a small constant."),
@@ -57,7 +60,6 @@ CHECKS = {
 }
 
 PENDING = {
- "C16": "check under construction in this session (statement-level schedule exploration, DESIGN.md §5/C16); not yet claimed",
 }
 
 def main():
